@@ -19,6 +19,19 @@ MISSED = {
  'C13-C': 'index `ia` carries an auto-link rule (adds issue nested VLinks) in every workload',
  'C18-D': 'C18 engine part: a late insert after compression and (half of the time) a restart, then values and distances of all earlier vectors again (also caught by C06 and C07 as they stood)',
  'C19-D': 'duration fields are typed (string or number): any other JSON type must be answered 4xx',
+ 'C01-E': 'same edit as C14-B (apply gate released before the shadow writes are back in the log): needs a write racing the end of a snapshot - **caught by C14**, not by C01 (C01 drives operations one at a time)',
+ 'C01-F': 'vexec.Observe now also reads through the secondary indexes (equality filters on occurring values, text search on occurring words), so every before/after comparison sees them',
+ 'C07-E': 'the stored form of a cosine/float32 vector must be the unit-length form of the supplied one (assumption of the brute-force reference, now asserted), and cosine batches get arbitrary lengths (also caught by C04 and C06 as they stood)',
+ 'C08-F': 'provenance agreement (live / replay / snapshot restore / compression) asserted on the unsettled value classes of the lenient group (also caught by C01 through the new Observe reads)',
+ 'C12-E': 'node ids containing the "::" separator (the product creates such ids itself)',
+ 'C12-F': 'symmetric relations (inverse named like the relation) and a compaction before the restart',
+ 'C14-E': 'writer part: Close while snapshot mode is on',
+ 'C14-F': 'writes that straddle the admin operation (first part as scheduled, second part after it completed); also caught by C01 as it stood (same edit as C01-A)',
+ 'C15-E': 'C15 engine part: the decay laws are checked again after VCompress (also caught by C01 and C04 as they stood: memory configuration in the read-out)',
+ 'C18-F': 'C18 engine part: the vector an int8 range was trained on is deleted before the restart (also caught by C01 and C04 as they stood)',
+ 'C19-E': 'the oversized vector as a later batch item (behind a regular one, behind one without a vector)',
+ 'C19-F': 'fixtures carry list / nested-object / null metadata, so requests that rewrite metadata meet them',
+ 'C20-F': 'part `history`: Compress / Analyze after an adversarial call history vs fresh child processes of the same binary, one per language',
 }
 
 def defects():
